@@ -32,7 +32,10 @@ def gen(tier, rng):
             if len(s.encode()) > 128:
                 s = s[:20] + "a" * 30
         out.append(("PKCE %s %s" % (rng.choice(["s256", "s256", "plain"]), C.tb(s)), "random-legal"))
-    for k in list(range(0, 201)) + [255, 256, 65535, 65536, 4294967295]:
+    # byte counts: 0..=200, and large values whose low 8 / 16 bits fall inside 32..=96 (a count narrowed to a smaller
+    # integer type would be accepted)
+    wrap = [b + o for b in (256, 512, 1024, 65536, 131072, 2 ** 24, 2 ** 31, 2 ** 32 - 256, 2 ** 32 - 65536) for o in (0, 31, 32, 43, 64, 96, 97) if b + o < 2 ** 32]
+    for k in list(range(0, 201)) + [255, 256, 65535, 65536, 4294967295] + wrap:
         reps = 1 if (k < 32 or k > 96) else (3 if tier == "quick" else 40)
         for r in range(reps):
             out.append(("PKCERAND %d" % k if r == 0 else "PKCERAND %d" % k + "", "rand-sweep"))
